@@ -392,6 +392,12 @@ fn replay(ctx: &mut Ctx, v: &Value) {
     let style = case["style"].as_u64().unwrap_or(0) as u8;
     ctx.case(None);
     ctx.force_sample(case.clone());
+    if let Some(p) = case.get("builtin_illtyped_parameters") {
+        if let Err(f) = run_builtin_illtyped(p, depth) {
+            ctx.violation(&f.key, &f.what, "c01-replay", case.clone());
+        }
+        return;
+    }
     let res = if case["transport"] == "unix" {
         let scratch = Scratch::new("c01r");
         let addr = scratch.unix_addr("c01.sock");
@@ -406,6 +412,56 @@ fn replay(ctx: &mut Ctx, v: &Value) {
     };
     if let Err(f) = res {
         ctx.violation(&f.key, &f.what, "c01-replay", case.clone());
+    }
+}
+
+/// Built-in calls with ill-typed parameters between two ordinary calls: the request is answered (with an
+/// error) or the service ends the connection - it is never passed over while later requests are served.
+pub fn run_builtin_illtyped(params: &Value, depth: usize) -> Result<(), Fail> {
+    let (svc, _p) = t_service();
+    let msgs: Vec<Vec<u8>> = vec![
+        encode(&json!({"method": "org.varlink.service.GetInfo"}), Style::Compact),
+        encode(&json!({"method": "org.varlink.service.GetInterfaceDescription", "parameters": params}), Style::Compact),
+        encode(&json!({"method": "org.varlink.service.GetInfo"}), Style::Compact),
+    ];
+    let chunks_owned: Vec<Vec<u8>> = if depth >= 3 { vec![msgs.concat()] } else if depth == 2 { vec![[msgs[0].clone(), msgs[1].clone()].concat(), msgs[2].clone()] } else { msgs.clone() };
+    let chunks: Vec<&[u8]> = chunks_owned.iter().map(|c| &c[..]).collect();
+    let run = run_chunks(&svc, &chunks);
+    if let Some(p) = &run.panicked {
+        return Err(Fail::new("handle/panic", format!("panicked: {}", p)));
+    }
+    let replies = split_replies("handle", &run.out)?;
+    if run.err.is_none() && replies.len() < 3 {
+        return Err(Fail::new(
+            "handle/skipped/DescIllTyped",
+            format!("GetInfo, GetInterfaceDescription with parameters {}, GetInfo (pipelining depth {}): {} replies and the connection stayed open - a request was passed over", params, depth, replies.len()),
+        ));
+    }
+    if replies.len() > 3 {
+        return Err(Fail::new("handle/extra-reply", format!("3 requests, {} replies", replies.len())));
+    }
+    if let Some(r) = replies.get(1) {
+        let is_info = r["parameters"]["interfaces"].is_array();
+        if r.get("error").map(|e| e.is_null()).unwrap_or(true) && !is_info {
+            return Err(Fail::new("handle/wrong-final/DescIllTyped", format!("ill-typed GetInterfaceDescription {} got the success reply {}", params, r)));
+        }
+        if is_info && run.err.is_none() {
+            return Err(Fail::new("handle/skipped/DescIllTyped", format!("the reply after the first GetInfo reply is another GetInfo reply: the ill-typed request {} was passed over", params)));
+        }
+    }
+    Ok(())
+}
+
+fn builtin_illtyped(ctx: &mut Ctx) {
+    for params in [json!({}), json!({"interface": 5}), json!({"interface": null}), json!({"iface": "org.verif.test"}), json!({"interface": ["org.verif.test"]}), json!([]), json!("org.verif.test")] {
+        for depth in 1..=3usize {
+            ctx.case(Some(hash64(&(params.to_string(), depth, "builtin-illtyped"))));
+            ctx.class("mem:built-in-call-with-ill-typed-parameters");
+            if let Err(f) = pt::guard(|| run_builtin_illtyped(&params, depth)) {
+                ctx.violation(&f.key, &f.what, "c01-mem", json!({"builtin_illtyped_parameters": params, "depth": depth}));
+                return;
+            }
+        }
     }
 }
 
@@ -424,6 +480,7 @@ pub fn run(args: &Args) -> ! {
     }
     let maxlen = ctx.tier.pick(2, 3);
     exhaustive(&mut ctx, maxlen);
+    builtin_illtyped(&mut ctx);
     ctx.bump_sample_cap(6);
     let n = ctx.tier.pick(50_000, 400_000);
     random_mem(&mut ctx, n);
